@@ -766,6 +766,12 @@ func runCheck(id, tier string) int {
 	t0 := time.Now()
 	seed := seedFromEnv()
 	evPath := filepath.Join(verifDir, "evidence", id+".json")
+	if repoDir != "/repo" {
+		// a run against some other tree (a seeded change, a scratch worktree) is not
+		// evidence about /repo: keep the committed evidence files out of it
+		evPath = filepath.Join(verifDir, "replays", "evidence-other-tree-"+id+".json")
+		os.MkdirAll(filepath.Dir(evPath), 0o755)
+	}
 	os.MkdirAll(filepath.Dir(evPath), 0o755)
 	os.Remove(evPath)
 	dir, binfo := ensureBuilt(p.harnessList(), false)
